@@ -64,6 +64,9 @@ struct Node : public BasicTestingSetup, public CValidationInterface {
     explicit Node(NodeOpts opts = {});
     ~Node();
     NodeOpts m_opts;
+    // LoadChainstate + VerifyLoadedChainstate (+ ActivateBestChain); returns "" or the error. Only needed with load_chainstate=false.
+    std::string Load(bool activate);
+    std::string Activate();
     kernel::CacheSizes m_kernel_cache_sizes;
 
     ChainstateManager& chainman() { return *m_node.chainman; }
